@@ -245,9 +245,10 @@ def annotate_diffs(diffs, src):
             if l2 and 0 < l2 <= len(lines):
                 line = lines[l2 - 1]
                 d["column_counted_in_characters"] = (not line.isascii()) and len(line[:d["a"]].encode("utf-8")) == d["b"]
-        if "JoinedStr" in (d.get("chain") or []) and d.get("near") and d["near"][0]:
+        near = d.get("near") if d.get("near") and d["near"][0] else [ln, d.get("end_lineno") or ln]
+        if "JoinedStr" in (d.get("chain") or []) and near[0]:
             import re
-            seg = "\n".join(lines[d["near"][0] - 1:d["near"][1]])
+            seg = "\n".join(lines[near[0] - 1:near[1]])
             d["fstring_debug_specifier"] = bool(re.search(r"\{[^{}]*[^=!<>{}]=\s*(![rsa])?(:[^{}]*)?\}", seg))
         if d["what"] == "attr:end_col_offset" and d["node"] in ("Constant", "JoinedStr") and d.get("end_lineno"):
             # number of string tokens inside the node's span (implicit concatenation)
@@ -344,6 +345,10 @@ def reserved_used(src, reserved):
     return sorted(used)
 
 
+def uses_matmul(tree):
+    return any(isinstance(n, ast.MatMult) for n in ast.walk(tree))
+
+
 def class_annotations(tree):
     for n in ast.walk(tree):
         if isinstance(n, ast.ClassDef) and any(isinstance(s_, ast.AnnAssign) for s_ in n.body):
@@ -395,6 +400,8 @@ def scan(paths, reserved):
             r["skip"] = "reserved-word:" + ",".join(used)
         elif class_annotations(tree):
             r["skip"] = "class-annotation-is-property-syntax"
+        elif uses_matmul(tree):
+            r["skip"] = "matmul-operator-is-scenic-vector-syntax"
         r["features"] = features(tree)
         r["nodes"] = sum(1 for _ in ast.walk(tree))
         names = {}
@@ -441,6 +448,10 @@ def compare_one(job, reserved):
                     r["status"] = "skip"
                     r["reason"] = "scenic-assignment-statement"
                     return r
+        if uses_matmul(ref):
+            r["status"] = "skip"
+            r["reason"] = "matmul-operator-is-scenic-vector-syntax"
+            return r
         if class_annotations(ref) and not job.get("keep_class_annotations"):
             r["status"] = "skip"
             r["reason"] = "class-annotation-is-property-syntax"
@@ -692,9 +703,9 @@ def main():
     elif kind == "compare":
         res = []
         reserved = set(req["reserved"])
-        deadline = req.get("deadline")
+        budget = req.get("cpu_budget")       # CPU seconds for this worker: independent of the load on the machine
         for job in req["jobs"]:
-            if deadline and time.time() > deadline:
+            if budget and time.process_time() > budget:
                 res.append(dict(id=job["id"], status="skip", reason="time-budget"))
                 continue
             try:
